@@ -69,6 +69,7 @@ def collect(chk, prop):
                 "zero_draws": rng.choice([0, 0, 6]),           # some uniform draws are exactly 0.0
                 "retarget": rng.random() < 0.25,               # built with another target, re-targeted through the setter
                 "labels": rng.choice(["id", "id", "shift", "big"]),   # vertex labels 0..N-1, 1000 + 7v, or 70000 + v
+                "jd_as_list": rng.random() < 0.3,             # joint degree annotations stored as lists instead of tuples
                 "again": rng.random() < 0.5}                   # the object rewires once more afterwards: the first result must survive
         if rng.random() < 0.2:
             # object reuse: the same vertices carried other motifs (hence other joint degrees) in the network rewired before
@@ -78,8 +79,9 @@ def collect(chk, prop):
         tr = R.execute(case)
         if tr["timeout"]:
             timeouts += 1
-            if not any(s["result"] for s in tr["steps"]):
-                continue
+            untouched = tr["input_annotations_same"] and tr["g0_after"] == tr["g0"]
+            if not any(s["result"] for s in tr["steps"]) and untouched:
+                continue          # inconclusive; but a run that damaged its input is decisive whether or not it returns
         traces.append(tr)
     # (3) parameter dictionaries that leave the optional limits to their documented defaults (10 x edges accepted swaps)
     for i in range(12 if thorough else 4):
